@@ -16,6 +16,7 @@
    only names the defect family (finding key) when the implementation deviates at that step. *)
 EXTENDS IdSet, TLC, TLCExt, Json, IOUtils, CSV
 CONSTANTS NV, NSlots, MaxLen, WithMove,
+          Regrow,      \* TRUE: only histories `inserts ; clear ; inserts` in slot 0 (a cleared set grows past the capacity it kept)
           CloneDeep    \* TRUE: only histories `inserts into slot 0 ; clone 0 -> 1 ; at most two more operations` (deeper sets before the clone)
 Vals  == SubSeq(<<"a", "b", "c", "d">>, 1, NV)   \* the values that get inserted
 Probe == Vals \o <<"z">>                         \* the values that are looked up ("z" is never inserted)
@@ -44,7 +45,13 @@ Init == /\ hist = <<>>
 \* the shape of the deep-clone histories: the original grows (also by duplicate inserts) before it is cloned once
 Cloned == \E i \in 1..Len(hist) : hist[i].op = "clone"
 ClonePos == CHOOSE i \in 1..Len(hist) : hist[i].op = "clone"
-ShapeOK(op) == \/ ~CloneDeep
+NClears == Cardinality({i \in 1..Len(hist) : hist[i].op = "clear"})
+RegrowOK(op) == /\ op.s = 0
+                /\ \/ NClears = 0 /\ op.op = "insert" /\ Len(hist) < 3
+                   \/ NClears = 0 /\ op.op = "clear" /\ Len(hist) >= 2
+                   \/ NClears = 1 /\ op.op = "insert"
+ShapeOK(op) == IF Regrow THEN RegrowOK(op) ELSE
+               \/ ~CloneDeep
                \/ (~Cloned /\ ((op.op = "insert" /\ op.s = 0 /\ Len(hist) < 4) \/ (op.op = "clone" /\ op.s = 0 /\ Len(hist) >= 2)))
                \/ (Cloned /\ Len(hist) = ClonePos /\ op.s = 0 /\ op.op \in {"drop", "clear", "consume", "insert"})
                \/ (Cloned /\ Len(hist) = ClonePos + 1 /\ op.s = 1 /\ op.op = "insert")
